@@ -147,6 +147,10 @@ def norm(p) -> str:
     return str(pathlib.PurePosixPath(str(p)))
 
 
+def join(base: str, suffix: str) -> str:
+    return str(pathlib.PurePosixPath(base) / suffix) if suffix else base
+
+
 # ----------------------------------------------------------------------------- reference semantics
 
 class RefPath:
@@ -424,7 +428,7 @@ def real_program(defs, use_conf_name: str, use_expr, fx: Fixture, before_use=Non
     rel = ddv.relativity()
     kind = 'abs' if rel.is_absolute else _KIND_OF_REAL[rel.relativity_type.name]
     value = ddv.value_of_any_dependency(real_tcds(fx))
-    return None, ('ok', kind, str(value))
+    return None, ('ok', kind, str(value), ddv.path_suffix_str())
 
 
 _KIND_OF_REAL = {'REL_CWD': 'cwd', 'REL_HDS_CASE': 'home', 'REL_HDS_ACT': 'act-home', 'REL_ACT': 'act',
